@@ -258,7 +258,8 @@ class TrioEventLoop(EventLoop):
         if isinstance(exc, ExitMainLoop):
             return
 
-        raise exc.with_traceback(exc.__traceback__) from None
+        # hide the exception group this was taken out of, not the cause the callback gave it
+        raise exc.with_traceback(exc.__traceback__) from exc.__cause__
 
     async def _main_task(self) -> None:
         """Main Trio task that opens a nursery and then sleeps until the user
